@@ -1120,7 +1120,10 @@ func (pc *PartitionContext) getAppsByState(state string) []string {
 
 // getRejectedAppsByState returns a slice of applicationIDs for the rejected applications filtered by state.
 func (pc *PartitionContext) getRejectedAppsByState(state string) []string {
-	return pc.getAppsState(pc.rejectedApplications, state)
+	pc.RLock()
+	rejected := pc.rejectedApplications
+	pc.RUnlock()
+	return pc.getAppsState(rejected, state)
 }
 
 // getCompletedAppsByState returns a slice of applicationIDs for the completed applicationIDs filtered by state.
@@ -1701,6 +1704,8 @@ func (pc *PartitionContext) AddRejectedApplication(rejectedApplication *objects.
 			zap.String("currentState", rejectedApplication.CurrentState()),
 			zap.Error(err))
 	}
+	pc.Lock()
+	defer pc.Unlock()
 	if pc.rejectedApplications == nil {
 		pc.rejectedApplications = make(map[string]*objects.Application)
 	}
